@@ -198,7 +198,9 @@ func (f *fakeInner) UnmarshalSSZ(b []byte) error {
 	}
 }
 
-func (f *fakeInner) valFuncB(v eth2util.DataVersion, _ bool) (core.VerifSSZType, error) { return f.valFunc(v) }
+func (f *fakeInner) valFuncB(v eth2util.DataVersion, _ bool) (core.VerifSSZType, error) {
+	return f.valFunc(v)
+}
 func (f *fakeInner) valFunc(v eth2util.DataVersion) (core.VerifSSZType, error) {
 	if verNum(v) < 0 { // like every real sszValFromVersion: default -> error
 		return nil, fmt.Errorf("invalid version")
@@ -264,15 +266,15 @@ func (p *probeS) UnmarshalSSZ([]byte) error {
 	}
 	return fmt.Errorf("scripted ssz failure")
 }
-func (p *probeS) UnmarshalJSON([]byte) error { p.jsonCalls++; return nil }
-func (p *probeS) MarshalSSZ() ([]byte, error) { return []byte{1}, nil }
+func (p *probeS) UnmarshalJSON([]byte) error            { p.jsonCalls++; return nil }
+func (p *probeS) MarshalSSZ() ([]byte, error)           { return []byte{1}, nil }
 func (p *probeS) MarshalSSZTo(d []byte) ([]byte, error) { return append(d, 1), nil }
-func (p *probeS) SizeSSZ() int { return 1 }
-func (p *probeS) MarshalJSON() ([]byte, error) { return []byte("2"), nil }
+func (p *probeS) SizeSSZ() int                          { return 1 }
+func (p *probeS) MarshalJSON() ([]byte, error)          { return []byte("2"), nil }
 
 type probeJ struct{ jsonCalls int }
 
-func (p *probeJ) UnmarshalJSON([]byte) error  { p.jsonCalls++; return nil }
+func (p *probeJ) UnmarshalJSON([]byte) error   { p.jsonCalls++; return nil }
 func (p *probeJ) MarshalJSON() ([]byte, error) { return []byte("2"), nil }
 
 var _ = binary.LittleEndian
